@@ -560,7 +560,8 @@ def rule_M1(ctx, rid='M1'):
            'contains() requires membership in some neural bound, as sample() does')
     # pool path: workers use the serial path
     w = prog.func('NautilusBound._reset_and_sample')
-    okw = any(isinstance(n, ast.Call) and dotted(n.func) == 'self.sample' and
+    okw = any(isinstance(n, ast.Call) and
+              dotted(n.func) in ['%s.sample' % r for r in worker_receivers(w)] and
               not any(k.arg == 'pool' for k in n.keywords) and
               any(k.arg == 'return_points' and isinstance(k.value, ast.Constant) and
                   k.value.value is False for k in n.keywords)
@@ -886,6 +887,21 @@ def rule_M5(ctx, rid='M5'):
 #    the merged proposals of a union are shuffled before they are cached
 # ---------------------------------------------------------------------------
 
+def worker_receivers(f):
+    """Names the pool job `f` may work on: its receiver, and locals bound (only) to a private
+    deep copy of it."""
+    copies = {st.targets[0].id for st in walk_no_nested(f.node) if isinstance(st, ast.Assign)
+              and len(st.targets) == 1 and isinstance(st.targets[0], ast.Name) and
+              isinstance(st.value, ast.Call) and
+              dotted(st.value.func) in ('copy.deepcopy', 'deepcopy') and st.value.args and
+              isinstance(st.value.args[0], ast.Name) and st.value.args[0].id == f.self_name}
+    rebound = {t.id for st in walk_no_nested(f.node) if isinstance(st, ast.Assign)
+               for t in st.targets if isinstance(t, ast.Name)
+               if not (isinstance(st.value, ast.Call) and
+                       dotted(st.value.func) in ('copy.deepcopy', 'deepcopy'))}
+    return [f.self_name] + sorted(copies - rebound)
+
+
 def rule_M9(ctx, rid='M9'):
     ctx.rule(rid, 'proposal cache discipline: the rows a bound hands out (`self.points[:n]`) are '
              'removed from its cache on the same path (`self.points = self.points[n:]`); a pool '
@@ -928,15 +944,17 @@ def rule_M9(ctx, rid='M9'):
         f = prog.func('NautilusBound._reset_and_sample')
         cfg = cfg_of(f)
         params = [p for p in f.params if p != f.self_name]
+        recvs = worker_receivers(f)
         resets = [c for c in walk_no_nested(f.node) if isinstance(c, ast.Call) and
-                  dotted(c.func) == '%s.reset' % f.self_name and cfg.has(c)]
+                  dotted(c.func) in ['%s.reset' % r for r in recvs] and cfg.has(c)]
         samples = [c for c in walk_no_nested(f.node) if isinstance(c, ast.Call) and
-                   dotted(c.func) == '%s.sample' % f.self_name and cfg.has(c)]
+                   dotted(c.func) in ['%s.sample' % r for r in recvs] and cfg.has(c)]
         seeded = [c for c in resets if any(
             isinstance(x, ast.Name) and x.id in params for a in list(c.args) +
             [k.value for k in c.keywords] for x in ast.walk(a))]
         ok = bool(seeded) and bool(samples) and all(any(
-            cfg.dominates(cfg.node_of(r).id, cfg.node_of(s_).id) for r in seeded)
+            cfg.dominates(cfg.node_of(r).id, cfg.node_of(s_).id) and
+            dotted(r.func).split('.')[0] == dotted(s_.func).split('.')[0] for r in seeded)
             for s_ in samples)
         n += 1
         ctx.ob(rid, 'NautilusBound._reset_and_sample:clean-reseeded-copy', ok, f.where(),
@@ -945,6 +963,22 @@ def rule_M9(ctx, rid='M9'):
                'the worker samples without first resetting its copy of the bound with the '
                'generator it received: every worker starts from the parent\'s cache, counters '
                'and random state, so the merged proposals contain duplicates')
+        # ... and that object is not the caller's: a pool whose workers share the caller's
+        # memory (threads) passes `self` itself to every job
+        own = [c for c in resets + samples if dotted(c.func).split('.')[0] == f.self_name]
+        rets = [r for r in walk_no_nested(f.node) if isinstance(r, ast.Return)]
+        ret_self = [r for r in rets if isinstance(r.value, ast.Name) and r.value.id == f.self_name]
+        ok2 = not own and not ret_self and bool(rets)
+        n += 1
+        ctx.ob(rid, 'NautilusBound._reset_and_sample:job-owns-its-bound', ok2, f.where(),
+               'every job resets, fills and returns a private deep copy of the bound: the '
+               'caller\'s object is never touched by a worker, also in a pool whose workers '
+               'share its memory' if ok2 else
+               'the job resets, fills and returns the object it was called on (`%s`): with a '
+               'pool whose workers share the caller\'s memory (thread pool, in-process dask '
+               'client) every job works on the caller\'s own bound, the merge adds its cache '
+               'and counters to themselves and each proposal is handed out several times'
+               % (unparse(own[0])[:40] if own else 'return %s' % f.self_name))
     # union: shuffle before caching
     f = prog.func('Union.sample')
     cfg = cfg_of(f)
